@@ -133,7 +133,10 @@ fn any_borrowed_frame<'a>(arr: &'a [u8; 255]) -> (Frame<'a>, u16, u8, usize) {
     kani::assume(n <= 255);
     let data = match Data::try_new(&arr[..n]) {
         Ok(d) => d,
-        Err(_) => panic!("try_new rejected <= 255 bytes"),
+        Err(e) => {
+            core::mem::forget(e); // never drop an error value in a harness: its drop glue drags in every dyn Error
+            panic!("try_new rejected <= 255 bytes")
+        }
     };
     (Frame::new(Address(addr), MsgType(ty), data), addr, ty, n)
 }
@@ -204,7 +207,10 @@ fn c04_identity_owned_data() {
     v.truncate(n);
     let data = match Data::try_new(v) {
         Ok(d) => d,
-        Err(_) => panic!("try_new rejected 3 bytes"),
+        Err(e) => {
+            core::mem::forget(e); // never drop an error value in a harness: its drop glue drags in every dyn Error
+            panic!("try_new rejected 3 bytes")
+        }
     };
     let frame = Frame::new(Address(addr), MsgType(ty), data);
     let back = Frame::from(Message::from(frame));
@@ -237,7 +243,10 @@ pub(crate) fn any_specific_message<'a>(arr: &'a [u8; 255]) -> Message<'a> {
             kani::assume(n <= 255);
             match Data::try_new(&arr[..n]) {
                 Ok(d) => Message::SendData(Offset(a), d),
-                Err(_) => panic!("try_new rejected <= 255 bytes"),
+                Err(e) => {
+            core::mem::forget(e); // never drop an error value in a harness: its drop glue drags in every dyn Error
+            panic!("try_new rejected <= 255 bytes")
+        }
             }
         }
         1 => Message::DataChunksSent(ChunkCount(a)),
